@@ -1,5 +1,5 @@
 """Contracts for C10 (wire codecs).  Clauses are Python expressions over the function's parameters, `result`,
-`old.<param>` (entry value) and the spec functions of spec.py; ghost names g_* are bound by the setup functions."""
+`old.<param>` (entry value), the `let` names (entry-state abbreviations) and the spec functions of spec.py."""
 import z3
 from pyvc.contracts import Contract
 from pyvc.driver import Unit
@@ -16,7 +16,6 @@ def setup_readbuf(ip, st, fr, case):
     st.assume(pos.t <= z3.Length(data.t))
     buf = st.new_obj('<BytesIO>', {'data': data, 'pos': pos})
     fr['self'] = st.new_obj(case.get('$cls', 'ReadBuf'), {'_buf': buf, '_len': mk(z3.Length(data.t), 'int')})
-    fr['g_data'], fr['g_pos'] = data, pos
     return {'g_data': data, 'g_pos': pos}
 
 
@@ -24,14 +23,18 @@ def setup_writebuf(ip, st, fr, case):
     data = fresh('wdata', 'bytes')
     buf = st.new_obj('<BytesIO>', {'data': data, 'pos': mk(z3.Length(data.t), 'int')})
     fr['self'] = st.new_obj(case.get('$cls', 'WriteBuf'), {'_wbuf': buf})
-    fr['g_w'] = data
     return {'g_w': data}
 
 
 RB_SETUP = "rb = ReadBuf(g_data); _ = rb.read(g_pos)"
 WB_SETUP = "wb = WriteBuf(); _ = wb.write(g_w)"
-UNREAD = "len(g_data) - g_pos"
-RB_FRAME = "self._buf.data == g_data and self._len == len(g_data)"
+RB_LET = {'D': 'self._buf.data', 'P': 'self._buf.pos'}
+RB_REQ = ["0 <= self._buf.pos and self._buf.pos <= len(self._buf.data) and self._len == len(self._buf.data)"]
+UNREAD = "len(D) - P"
+RB_FRAME = "self._buf.data == D and self._len == len(D)"
+WB_LET = {'W': 'self._wbuf.data'}
+WB_REQ = ["self._wbuf.pos == len(self._wbuf.data)"]
+WB_POS = "self._wbuf.pos == len(self._wbuf.data)"
 
 
 def units():
@@ -39,39 +42,72 @@ def units():
 
     def rb(name, **kw):
         harness = dict(imports=IMPORTS, setup=RB_SETUP, call=kw.pop('call'))
-        U.append(Unit(Contract('ReadBuf.' + name, setup=setup_readbuf, **kw), harness=harness))
+        kw.setdefault('let', RB_LET)
+        kw['requires'] = RB_REQ + list(kw.get('requires', []))
+        kw.setdefault('modifies', ['self._buf'])
+        U.append(Unit(Contract('ReadBuf.' + name, setup=setup_readbuf, mode='contract', **kw), harness=harness))
 
     def wb(name, **kw):
         harness = dict(imports=IMPORTS, setup=WB_SETUP, call=kw.pop('call'))
-        U.append(Unit(Contract('WriteBuf.' + name, setup=setup_writebuf, **kw), harness=harness))
+        kw.setdefault('let', WB_LET)
+        kw['requires'] = WB_REQ + list(kw.get('requires', []))
+        kw.setdefault('modifies', ['self._wbuf'])
+        kw.setdefault('result', lambda ip, st: st.frame['self'])
+        U.append(Unit(Contract('WriteBuf.' + name, setup=setup_writebuf, mode='contract', **kw), harness=harness))
 
-    # ------------------------------------------------------------------ decoders
-    rb('read', params=dict(size='nat'), call='rb.read(size)', raises={},
-       ensures=["result == g_data[g_pos:g_pos + size]", "self._buf.pos == g_pos + len(result)", RB_FRAME])
-    rb('read_byte', call='rb.read_byte()', raises={'struct.error': UNREAD + " < 1"},
-       ensures=["result == g_data[g_pos]", "self._buf.pos == g_pos + 1", RB_FRAME])
-    rb('read_bool', call='rb.read_bool()', raises={'struct.error': UNREAD + " < 1"},
-       ensures=["result == (g_data[g_pos] != 0)", "self._buf.pos == g_pos + 1", RB_FRAME])
-    rb('read_int', call='rb.read_int()', raises={'struct.error': UNREAD + " < 4"},
-       ensures=["result == val_be(g_data[g_pos:g_pos + 4])", "0 <= result and result < 4294967296",
-                "self._buf.pos == g_pos + 4", RB_FRAME],
-       use=["val_be_word(g_data[g_pos:g_pos + 4])"])
-    rb('read_string', call='rb.read_string()', raises={'struct.error': UNREAD + " < 4"},
-       ensures=["result == g_data[g_pos + 4:g_pos + 4 + val_be(g_data[g_pos:g_pos + 4])]",
-                "self._buf.pos == g_pos + 4 + len(result)", RB_FRAME],
-       use=["val_be_word(g_data[g_pos:g_pos + 4])"])
+    # ------------------------------------------------------------------ decoders (ReadBuf)
+    rb('read', params=dict(size='nat'), call='rb.read(size)', raises={}, result='bytes',
+       ensures=["result == D[P:P + size]", "self._buf.pos == P + len(result)", RB_FRAME])
+    rb('read_byte', call='rb.read_byte()', raises={'struct.error': UNREAD + " < 1"}, result='int',
+       ensures=["result == D[P]", "0 <= result and result < 256", "self._buf.pos == P + 1", RB_FRAME])
+    rb('read_bool', call='rb.read_bool()', raises={'struct.error': UNREAD + " < 1"}, result='bool',
+       ensures=["result == (D[P] != 0)", "self._buf.pos == P + 1", RB_FRAME])
+    rb('read_int', call='rb.read_int()', raises={'struct.error': UNREAD + " < 4"}, result='int',
+       ensures=["result == val_be(D[P:P + 4])", "0 <= result and result < 4294967296", "self._buf.pos == P + 4", RB_FRAME],
+       use=["val_be_word(D[P:P + 4])"])
+    rb('read_string', call='rb.read_string()', raises={'struct.error': UNREAD + " < 4"}, result='bytes',
+       ensures=["result == D[P + 4:P + 4 + val_be(D[P:P + 4])]", "self._buf.pos == P + 4 + len(result)", RB_FRAME])
     U.append(Unit(Contract(
-        'ReadBuf._parse_mpint', params=dict(v='bytes'),
+        'ReadBuf._parse_mpint', params=dict(v='bytes'), mode='contract', result='int',
         cases=[dict(pad=b'\x00', f='>I'), dict(pad=b'\xff', f='>i')],
-        requires=["implies(f == '>i', len(v) > 0 and v[0] >= 128)"],
-        ensures=["result == (val_be(v) if f == '>I' else val_be(v) - pow256(len(v)))"],
+        requires=["(pad == b'\\x00' and f == '>I') or (pad == b'\\xff' and f == '>i')",
+                  "implies(f == '>i', len(v) > 0 and v[0] >= 128)"],
+        ensures=["result == (val_be(old.v) if f == '>I' else val_be(old.v) - pow256(len(old.v)))"],
         raises={},
+        use=["val_be_concat(rep(pad, 4 - len(old.v) % 4), old.v)", "val_be_ff(4 - len(old.v) % 4)", "val_be_00(4 - len(old.v) % 4)",
+             "pow256_add(4 - len(old.v) % 4, len(old.v))"],
         loops={1: dict(invariant=["i % 4 == 0 and 0 <= i and i <= len(v) + 3",
                                   "r == (val_be(v[:i]) if (f == '>I' or i == 0) else val_be(v[:i]) - pow256(i))"],
+                       use_head=["rep_first(pad, 4 - len(old.v) % 4)"],
                        use=["val_be_concat(v[:i], v[i:i+4])", "val_be_word(v[i:i+4])", "pow256_4(len(v[i:i+4]))",
                             "pow256_add(i, 4)"])}),
         harness=dict(imports=IMPORTS, call="ReadBuf._parse_mpint(v, pad, f)")))
+    # RFC 4251 section 5 mpint: two's complement, big-endian; the empty string is zero
+    rb('read_mpint2', call='rb.read_mpint2()', raises={'struct.error': UNREAD + " < 4"}, result='int',
+       let=dict(RB_LET, S="self._buf.data[self._buf.pos + 4:self._buf.pos + 4 + val_be(self._buf.data[self._buf.pos:self._buf.pos + 4])]"),
+       ensures=["result == (0 if len(S) == 0 else sval_be(S))", "self._buf.pos == P + 4 + len(S)", RB_FRAME])
+    # SSH-1 mpint: 16-bit bit count, then ceil(bits/8) bytes, unsigned big-endian
+    rb('read_mpint1', call='rb.read_mpint1()', raises={'struct.error': UNREAD + " < 2"}, result='int',
+       let=dict(RB_LET, NB="(val_be(self._buf.data[self._buf.pos:self._buf.pos + 2]) + 7) // 8"),
+       ensures=["result == val_be(D[P + 2:P + 2 + NB])", "self._buf.pos == P + 2 + len(D[P + 2:P + 2 + NB])", RB_FRAME],
+       use=["val_be_half(D[P:P + 2])"])
+
+    # ------------------------------------------------------------------ encoders (WriteBuf)
+    wb('write', params=dict(data='bytes'), call='wb.write(data)', raises={},
+       ensures=["self._wbuf.data == W + data", WB_POS, "result is self"])
+    wb('write_byte', params=dict(v='int'), call='wb.write_byte(v)', raises={'struct.error': "v < 0 or v > 255"},
+       ensures=["self._wbuf.data == W + u8(v)", WB_POS, "result is self"])
+    wb('write_bool', params=dict(v='bool'), call='wb.write_bool(v)', raises={},
+       ensures=["self._wbuf.data == W + enc_bool(v)", WB_POS, "result is self"])
+    wb('write_int', params=dict(v='int'), call='wb.write_int(v)', raises={'struct.error': "v < 0 or v > 4294967295"},
+       ensures=["self._wbuf.data == W + u32(v)", WB_POS, "result is self"])
+    wb('write_string', params=dict(v='bytes'), call='wb.write_string(v)', raises={'struct.error': "len(v) > 4294967295"},
+       ensures=["self._wbuf.data == W + enc_string(v)", WB_POS, "result is self"])
+    U.append(Unit(Contract('WriteBuf.write_flush', setup=setup_writebuf, mode='contract', let=WB_LET, requires=WB_REQ,
+                           modifies=['self._wbuf'], result='bytes', raises={},
+                           ensures=["result == W", "self._wbuf.data == b''", "self._wbuf.pos == 0"]),
+                  harness=dict(imports=IMPORTS, setup=WB_SETUP, call='wb.write_flush()')))
     return U
 
 
-LEMMAS = ['concat_init', 'val_be_concat', 'val_be_word', 'pow256_4', 'pow256_add']
+LEMMAS = ['rep_len', 'rep_first', 'val_be_ff', 'val_be_00', 'concat_init', 'val_be_concat', 'val_be_word', 'val_be_half', 'pow256_4', 'pow256_add']
